@@ -355,6 +355,11 @@ impl Ctx {
     pub fn miri(&self) -> bool {
         self.engine == Engine::Miri
     }
+    /// a memory-error detector is watching: inputs are handed over as allocations of exactly their size, so
+    /// that a read behind the input is a read behind an allocation (the only kind a red-zone tool can see)
+    pub fn sanitized(&self) -> bool {
+        matches!(self.engine, Engine::Miri | Engine::Memcheck | Engine::Asan)
+    }
     pub fn thorough(&self) -> bool {
         self.tier == Tier::Thorough
     }
